@@ -9,6 +9,7 @@ package comet
 
 import (
 	"fmt"
+	"math"
 	"sort"
 	"strings"
 )
@@ -669,6 +670,34 @@ func (s *vReaddSys) observe(h []string) {
 			nt(fmt.Sprint("q", qi))
 			s.c.Outcome(fmt.Sprint(vResIDs(res)))
 		}
+		// findable with ordinary search parameters too: a query equal to a document's
+		// current vector, probing ONE cluster (the hybrid index's default), must return
+		// that document (it lives in the cluster of its nearest centroid); skipped when
+		// two centroids are equally near
+		for id, ci := range s.live {
+			q := vReaddVecs[ci]
+			if x, ok := s.vidx.(*IVFIndex); ok && vCentroidTie(x.distance, x.centroids, q) {
+				continue
+			}
+			if x, ok := s.vidx.(*IVFPQIndex); ok && vCentroidTie(x.distance, x.centroids, q) {
+				continue
+			}
+			s.c.Evaluations++
+			res, err := s.vidx.NewSearch().WithQuery(vCopyVec(q)).WithK(-1).WithNProbes(1).Execute()
+			if err != nil {
+				s.c.Violation("search-error", s.kind, s.cfgS, h, err.Error())
+				continue
+			}
+			found := false
+			for _, r := range res {
+				if r.Node.ID() == id {
+					found = true
+				}
+			}
+			if !found {
+				s.c.Violation("missing-id", s.tag(id, false)+":single-probe-self-query", s.cfgS, h, fmt.Sprintf("query = current vector %v of id %d with nprobes=1 returns [%s]", q, id, vResStr(res)))
+			}
+		}
 	case s.tidx != nil:
 		for _, tok := range []string{"alpha", "beta", "gamma"} {
 			s.c.Evaluations++
@@ -833,4 +862,22 @@ func init() {
 			return ok
 		},
 	})
+}
+
+// vCentroidTie: are the two nearest centroids of q (after preprocessing) equally near?
+func vCentroidTie(dist Distance, centroids [][]float32, q []float32) bool {
+	pq, err := dist.Preprocess(vCopyVec(q))
+	if err != nil || len(centroids) < 2 {
+		return false
+	}
+	best, second := float32(math.Inf(1)), float32(math.Inf(1))
+	for _, c := range centroids {
+		d := dist.Calculate(pq, c)
+		if d < best {
+			best, second = d, best
+		} else if d < second {
+			second = d
+		}
+	}
+	return vApprox(float64(best), float64(second))
 }
